@@ -699,6 +699,9 @@ mod c20 {
     c20!(c20_colon_absolute, ":/abs", ["/a"], [ABS], true, None);
     c20!(c20_trimmed_fallback, " UTC0 ", ["/a"], [10], false, Some(true));
     c20!(c20_no_dirs_posix, "UTC0", [], [], false, Some(true));
+    // a value is looked up exactly as given: whitespace is stripped only for the POSIX fallback, so a padded absolute path is a
+    // relative name (one candidate under the directory, never a read of "/abs" itself)
+    c20!(c20_padded_absolute_is_relative, " /abs", ["/a"], [10], false, Some(false));
 
     /// the empty value is refused without touching the file system
     #[kani::proof]
